@@ -95,14 +95,65 @@ Definition utf8_ext (cp : Z) : list Z :=
   else if cp <? 67108864 then [248 + cp / 16777216; 128 + (cp / 262144) mod 64; 128 + (cp / 4096) mod 64; 128 + (cp / 64) mod 64; 128 + cp mod 64]
   else [252 + cp / 1073741824; 128 + (cp / 16777216) mod 64; 128 + (cp / 262144) mod 64; 128 + (cp / 4096) mod 64; 128 + (cp / 64) mod 64; 128 + cp mod 64].
 
-Fixpoint read_hex_braced (s : list Z) (acc : Z) (n : nat) : option (Z * list Z) :=
+Fixpoint read_hex_braced (s : list Z) (acc : Z) (seen : bool) : option (Z * list Z) :=
   match s with
   | [] => None
-  | c :: r => if c =? 125 then (if Nat.eqb n 0 then None else Some (acc, r))
+  | c :: r => if c =? 125 then (if seen then Some (acc, r) else None)
               else match hexval c with
-                   | Some d => let a := acc * 16 + d in if 2147483648 <=? a then None else read_hex_braced r a (S n)
+                   | Some d => let a := acc * 16 + d in if 2147483648 <=? a then None else read_hex_braced r a true
                    | None => None
                    end
+  end.
+
+Fixpoint skip_space (l : list Z) : list Z :=
+  match l with x :: t => if is_space x then skip_space t else l | [] => [] end.
+
+(* one escape sequence: [r] is what follows the backslash; result: bytes denoted, rest *)
+Definition unescape1 (r : list Z) : option (list Z * list Z) :=
+  match r with
+  | [] => None
+  | c :: r1 =>
+    if c =? 97 then Some ([7], r1) else if c =? 98 then Some ([8], r1)
+    else if c =? 102 then Some ([12], r1) else if c =? 110 then Some ([10], r1)
+    else if c =? 114 then Some ([13], r1) else if c =? 116 then Some ([9], r1)
+    else if c =? 118 then Some ([11], r1)
+    else if (c =? 92) || (c =? 34) || (c =? 39) then Some ([c], r1)
+    else if (c =? 10) || (c =? 13) then Some ([10], r1)
+    else if c =? 120 then
+      match r1 with
+      | h1 :: h2 :: r2 => match hexval h1, hexval h2 with
+                          | Some a, Some b => Some ([a * 16 + b], r2)
+                          | _, _ => None
+                          end
+      | _ => None
+      end
+    else if c =? 122 then Some ([], skip_space r1)
+    else if c =? 117 then
+      match r1 with
+      | x :: r2 => if x =? 123 then
+                     match read_hex_braced r2 0 false with
+                     | Some (cp, r3) => Some (utf8_ext cp, r3)
+                     | None => None
+                     end
+                   else None
+      | [] => None
+      end
+    else if is_dec c then
+      match r1 with
+      | d2 :: r2 =>
+        if is_dec d2 then
+          match r2 with
+          | d3 :: r3 =>
+            if is_dec d3 then
+              let v := (c - 48) * 100 + (d2 - 48) * 10 + (d3 - 48) in
+              if v <=? 255 then Some ([v], r3) else None
+            else Some ([(c - 48) * 10 + (d2 - 48)], r2)
+          | [] => Some ([(c - 48) * 10 + (d2 - 48)], r2)
+          end
+        else Some ([c - 48], r1)
+      | [] => Some ([c - 48], r1)
+      end
+    else None
   end.
 
 (* body of a double-quoted literal (after the opening quote); result: the denoted
@@ -113,60 +164,21 @@ Fixpoint unescape_go (fuel : nat) (s : list Z) (acc : list Z) : option (list Z) 
   | S f =>
     match s with
     | [] => None                                  (* unfinished string *)
-    | 34 :: r => match r with [] => Some acc | _ => None end
-    | 10 :: _ => None | 13 :: _ => None           (* raw line break *)
-    | 92 :: r =>
-      match r with
-      | [] => None
-      | c :: r1 =>
-        if c =? 97 then unescape_go f r1 (acc ++ [7]) else if c =? 98 then unescape_go f r1 (acc ++ [8])
-        else if c =? 102 then unescape_go f r1 (acc ++ [12]) else if c =? 110 then unescape_go f r1 (acc ++ [10])
-        else if c =? 114 then unescape_go f r1 (acc ++ [13]) else if c =? 116 then unescape_go f r1 (acc ++ [9])
-        else if c =? 118 then unescape_go f r1 (acc ++ [11])
-        else if (c =? 92) || (c =? 34) || (c =? 39) then unescape_go f r1 (acc ++ [c])
-        else if (c =? 10) || (c =? 13) then unescape_go f r1 (acc ++ [10])
-        else if c =? 120 then
-          match r1 with
-          | h1 :: h2 :: r2 => match hexval h1, hexval h2 with
-                              | Some a, Some b => unescape_go f r2 (acc ++ [a * 16 + b])
-                              | _, _ => None
-                              end
-          | _ => None
-          end
-        else if c =? 122 then
-          unescape_go f ((fix skip (l : list Z) := match l with x :: t => if is_space x then skip t else l | [] => [] end) r1) acc
-        else if c =? 117 then
-          match r1 with
-          | 123 :: r2 => match read_hex_braced r2 0 0 with
-                         | Some (cp, r3) => unescape_go f r3 (acc ++ utf8_ext cp)
-                         | None => None
-                         end
-          | _ => None
-          end
-        else if is_dec c then
-          match r1 with
-          | d2 :: r2 =>
-            if is_dec d2 then
-              match r2 with
-              | d3 :: r3 =>
-                if is_dec d3 then
-                  let v := (c - 48) * 100 + (d2 - 48) * 10 + (d3 - 48) in
-                  if v <=? 255 then unescape_go f r3 (acc ++ [v]) else None
-                else unescape_go f r2 (acc ++ [(c - 48) * 10 + (d2 - 48)])
-              | [] => unescape_go f r2 (acc ++ [(c - 48) * 10 + (d2 - 48)])
-              end
-            else unescape_go f r1 (acc ++ [c - 48])
-          | [] => unescape_go f r1 (acc ++ [c - 48])
-          end
-        else None
-      end
-    | b :: r => unescape_go f r (acc ++ [b])
+    | b :: r =>
+      if b =? 34 then match r with [] => Some acc | _ => None end
+      else if (b =? 10) || (b =? 13) then None    (* raw line break *)
+      else if b =? 92 then
+        match unescape1 r with
+        | Some (bytes, r') => unescape_go f r' (acc ++ bytes)
+        | None => None
+        end
+      else unescape_go f r (acc ++ [b])
     end
   end.
 Definition lua_string_literal (lit : list Z) : option (list Z) :=
   match lit with
-  | 34 :: body => unescape_go (S (length body)) body []
-  | _ => None
+  | q :: body => if q =? 34 then unescape_go (S (length body)) body [] else None
+  | [] => None
   end.
 
 (* ASCII part of unicode.IsPrint (used when the oracle is given a finite table of printable runes) *)
